@@ -329,7 +329,15 @@ func (fr *Frame) builtin(in ssa.Instruction, b *ssa.Builtin, c *ssa.CallCommon, 
 		default:
 			unsup("copy from %T", args[1])
 		}
-		n := Ite(CmpBV("bvslt", dst.Len, srcLen), dst.Len, srcLen)
+		var n *Term
+		switch {
+		case s.proves(CmpBV("bvsle", srcLen, dst.Len)):
+			n = srcLen
+		case s.proves(CmpBV("bvsle", dst.Len, srcLen)):
+			n = dst.Len
+		default:
+			n = Ite(CmpBV("bvslt", dst.Len, srcLen), dst.Len, srcLen)
+		}
 		if o := dst.object(); o != nil {
 			av := s.arrayOf(o)
 			if av.Arr == nil {
@@ -345,6 +353,10 @@ func (fr *Frame) builtin(in ssa.Instruction, b *ssa.Builtin, c *ssa.CallCommon, 
 		panic(pathEnd{"panic"})
 	case "print", "println":
 		return nil
+	case "ssa:wrapnilchk":
+		p := args[0].(*PtrV)
+		s.check("safety:nil@"+where, Not(p.Nil))
+		return []Value{p}
 	case "delete":
 		s.mapDelete(args[0].(*MapV), args[1])
 		return nil
@@ -427,6 +439,12 @@ func (fr *Frame) appendOp(args []Value, where string) Value {
 	if fits.IsFalse() || dst.object() == nil {
 		return realloc()
 	}
+	if s.pure == 0 && s.proves(fits) {
+		return inPlace()
+	}
+	if s.pure == 0 && s.proves(Not(fits)) {
+		return realloc()
+	}
 	if s.pure > 0 {
 		unsup("append in specification")
 	}
@@ -469,12 +487,41 @@ type Region struct {
 	Ghost string
 }
 
-func (s *State) evalModifies(c *Clause, args []Value) *Region {
+func (s *State) evalModifies(c *Clause, args []Value) []*Region {
 	v := s.evalClauseValue(c, args, s.entry)
 	iv, ok := v.(*IfaceV)
 	if ok && iv.Type.IsConst() {
 		v = iv.alts[int(iv.Type.Val)]
+	} else if ok {
+		// interface holding a pointer of one of several types: every candidate pointee is in the region
+		var out []*Region
+		if cw := s.eng.closedWorld(iv.Static); cw != nil {
+			for _, t := range cw {
+				if p, ok := iv.alt(typeID(t)).(*PtrV); ok {
+					if o := p.object(); o != nil {
+						out = append(out, &Region{Obj: o, Whole: true})
+					}
+				}
+			}
+			return out
+		}
+		for _, a := range iv.alts {
+			if p, ok := a.(*PtrV); ok {
+				if o := p.object(); o != nil {
+					out = append(out, &Region{Obj: o, Whole: true})
+				}
+			}
+		}
+		return out
 	}
+	r := s.evalModifies1(c, v)
+	if r == nil {
+		return nil
+	}
+	return []*Region{r}
+}
+
+func (s *State) evalModifies1(c *Clause, v Value) *Region {
 	switch x := v.(type) {
 	case *PtrV:
 		o := x.object()
@@ -567,11 +614,20 @@ func (s *State) applyContract(fn *ssa.Function, fc *FuncContract, args []Value, 
 		g := s.evalClause(c, args, nil)
 		s.check(fmt.Sprintf("pre:%s:%s@%s", callee, clauseLabel(c, i), where), g)
 	}
+	// distinct pointer/slice arguments must not share memory: contracts are proved for separated arguments
+	for i := 0; i < len(args); i++ {
+		for j := i + 1; j < len(args); j++ {
+			oi, oj := argObj(args[i]), argObj(args[j])
+			if oi != nil && oi == oj {
+				s.check(fmt.Sprintf("pre:%s:noalias(arg%d,arg%d)@%s", callee, i, j, where), False)
+			}
+		}
+	}
 	pre := s.snapshot()
 	// frame: havoc declared regions
 	var regs []*Region
 	for _, m := range fc.Modifies {
-		regs = append(regs, s.evalModifies(m, args))
+		regs = append(regs, s.evalModifies(m, args)...)
 	}
 	logGrows := false
 	for _, r := range regs {
@@ -624,4 +680,17 @@ func errorType() types.Type {
 		errType = types.Universe.Lookup("error").Type()
 	}
 	return errType
+}
+
+func argObj(v Value) *Obj {
+	switch x := v.(type) {
+	case *PtrV:
+		if x.Nil.IsTrue() {
+			return nil
+		}
+		return x.object()
+	case *SliceV:
+		return x.object()
+	}
+	return nil
 }
